@@ -583,6 +583,17 @@ func init() {
 		call(fr.i, fr, 0, m, []value{args[0], append([]value(nil), out...)})
 		return nilError()
 	}
+	externals["(*encoding/json.Decoder).Decode"] = func(fr *frame, args []value) value {
+		d := structOf(args[0])
+		data, rerr := fr.readAllIface(d[0].(iface))
+		if rerr != nil {
+			return rerr
+		}
+		if len(data) == 0 {
+			return fr.ioEOF()
+		}
+		return extJSONUnmarshal(fr, []value{data, args[1]})
+	}
 	externals["encoding/json.Unmarshal"] = extJSONUnmarshal
 	externals["encoding/json.Valid"] = func(fr *frame, args []value) value {
 		n, _ := parseJSON(fr, bytesOf(args[0]))
